@@ -14,7 +14,8 @@ from .editsim import check_consistent, modifying_registry
 from .model import count_nodes
 
 ACTIONS = ['none', 'replace', 'remove', 'replace_anc', 'remove_anc', 'replace_prev', 'remove_prev', 'replace_next',
-           'remove_next', 'insert_before', 'send_false', 'send_true']
+           'remove_next', 'insert_before', 'send_false', 'send_true', 'slice_del_next', 'slice_put_next', 'slice_del_prev',
+           'slice_put_prev']
 ORDER_ACTIONS = ['none', 'replace', 'remove', 'send_false']
 
 ALL_VALUES = [False, True, 'loc', 'Name', 'Call', 'set:Name,Constant', 'set:If,For,FunctionDef,Return,Assign,Expr']
@@ -326,6 +327,18 @@ class WalkRun:
             act['code'] = code_for(rng, tgt.a)
         elif a in ('remove_anc',):
             act['k'] = rng.choice([1, 1, 2, 3])
+        elif a.startswith('slice_'):
+            # siblings before / after the yielded node removed or replaced through the PARENT's slice interface
+            # (parent.put_slice(None | code, i, j, field), for a def's parameters: the arguments node's own slice)
+            act['n'] = rng.choice([1, 1, 2, 3])
+            if self.sibling_span(act, g) is None:
+                return {'a': 'none'}
+            if a in ('slice_put_next', 'slice_put_prev'):
+                par = g.parent
+                if isinstance(par.a, ast.arguments):
+                    act['code'] = {'form': 'src', 'cat': 'arguments', 'text': rng.choice(['nq', 'nq: int = 3', 'nq, nr=ns'])}
+                else:
+                    act['code'] = code_for(rng, g.a)
         if a == 'replace_anc':
             pass
         return act
@@ -363,6 +376,35 @@ class WalkRun:
             return None
         return lst[j].f
 
+    def sibling_span(self, act, g):
+        """(parent FST, field or None, start, stop) of the siblings a slice_* action addresses, or None."""
+        par, pf = g.parent, g.pfield
+        if par is None or pf is None or pf.idx is None or g is self.start:
+            return None
+        if isinstance(par.a, ast.arguments):
+            try:
+                sibs = [x.a for x in par._all]
+            except Exception:
+                return None
+            field = None
+        else:
+            sibs = getattr(par.a, pf.name, None)
+            field = pf.name
+            if not isinstance(sibs, list) or any(not isinstance(x, ast.AST) for x in sibs):
+                return None
+        try:
+            i = next(k for k, x in enumerate(sibs) if x is g.a)
+        except StopIteration:
+            return None
+        n = act.get('n', 1)
+        if act['a'].endswith('_next'):
+            a, b = i + 1, min(len(sibs), i + 1 + n)
+        else:
+            a, b = max(0, i - n), i
+        if a >= b:
+            return None
+        return par, field, a, b
+
     def perform(self, act, g, gen, leaving, entering):
         a = act['a']
         if a == 'none':
@@ -375,6 +417,16 @@ class WalkRun:
                 if not entering:
                     return 'skipped'
                 gen.send(True)
+                return 'ok'
+            if a.startswith('slice_'):
+                span = self.sibling_span(act, g)
+                if span is None:
+                    return 'notarget'
+                par, field, i, j = span
+                code = None
+                if 'code' in act:
+                    code, _ = O.make_code(act['code'], self.root, g)
+                par.put_slice(code, i, j, field)
                 return 'ok'
             tgt = self.target(act, g)
             if tgt is None:
